@@ -1154,6 +1154,9 @@ impl Matcher {
                     }
                     let elapsed = start.elapsed();
 
+                    #[cfg(feature = "verif")]
+                    crate::verif::emit("matcher.batch_done", &self.id.to_string());
+
                     histogram!("corro.subs.changes.processing.duration.seconds", "sql_hash" => self.hash.clone()).record(elapsed);
 
                     if elapsed >= PROCESSING_WARN_THRESHOLD {
@@ -1638,7 +1641,11 @@ impl Matcher {
                                     warn!("could not send back row to matcher sub sender: {e}");
                                     return Err(MatcherError::EventReceiverClosed);
                                 }
+                                #[cfg(feature = "verif")]
+                                crate::verif::point("matcher.sent", &change_id.0.to_string());
                                 _ = self.last_change_tx.send(change_id);
+                                #[cfg(feature = "verif")]
+                                crate::verif::point("matcher.marked", &change_id.0.to_string());
                             }
                             Err(e) => {
                                 error!("could not deserialize row's cells: {e}");
@@ -1663,7 +1670,13 @@ impl Matcher {
             }
         }
 
+        #[cfg(feature = "verif")]
+        crate::verif::point("matcher.before_commit", &self.id.to_string());
+
         tx.commit()?;
+
+        #[cfg(feature = "verif")]
+        crate::verif::point("matcher.committed", &self.id.to_string());
 
         trace!("committed!");
 
